@@ -1724,6 +1724,23 @@ def bounded(payload):
                 "run": {"max_steps": 2, "t_end": None}, "cap": 12})
             parts["nested_conditional_expression_programs"] = parts.get("nested_conditional_expression_programs", 0) + 1
 
+    # loop nests whose inner bounds depend on an outer counter (triangles, bands), element by element
+    for nest in ([["i", 0, 4], ["j", 0, ["+", "i", 1]]], [["i", 0, 4], ["j", "i", 4]], [["i", 1, 4], ["j", ["-", "i", 1], ["+", "i", 1]]],
+                 [["i", 0, 3], ["j", 0, "i"], ["k", "j", "i"]], [["i", 0, 4], ["j", 0, ["-", 4, "i"]]]):
+        idx = ["+", ["*", "i", 4], "j"]
+        val = ["+", ["*", 10, "j"], ["+", "i", 1]]
+        if len(nest) == 3:
+            val = ["+", val, ["*", 100, "k"]]
+        consider({"phases": [{"name": "main", "next": "main", "body": [
+            ["assign", "a", ["call", "<builtin>array", [16], {}]],
+            ["assign_sub", "a", "i", 0, [["i", 0, 16]]],
+            ["assign_sub", "a", idx, val, nest],
+            ["assign", "<state>x", ["+", "<state>x", ["+", ["[]", "a", 5], ["+", ["[]", "a", 10], ["[]", "a", 14]]]]],
+            ["assign", "<t>", ["+", "<t>", "<dt>"]], ["yield", "a", "y", "<t>", "final"]]}],
+            "initial": "main", "funcs": {}, "state": {"x": 1, "y": 1}, "t0": 0, "dt": 0.5,
+            "run": {"max_steps": 2, "t_end": None}, "cap": 12})
+        parts["dependent_loop_bound_programs"] = parts.get("dependent_loop_bound_programs", 0) + 1
+
     fam = list(small_family())
     # the exhaustive family (strided in the quick tier; offset by seed so that repeated quick runs
     # with different seeds cover it)
